@@ -470,6 +470,7 @@ GO_KINDS = {
     'IndexGO-auto-empty': (lambda: sf.IndexAutoFactory.from_optional_constructor(0, default_constructor=sf.IndexGO), [], [0, 1, 'x', 0]),
     'IndexDateGO': (lambda: sf.IndexDateGO(('2020-01-01',)), [D('2020-01-01')], [D('2020-01-02'), D('2020-01-01'), D('2019-01-01')]),
     'IndexHierarchyGO': (lambda: sf.IndexHierarchyGO.from_labels([('a', 1), ('a', 2)]), [('a', 1), ('a', 2)], [('a', 3), ('b', 1), ('a', 1), ('b', 2), ('c', 1)]),
+    'IndexHierarchyGO-empty': (lambda: sf.IndexHierarchyGO.from_labels((), depth_reference=2), [], [('a', 1), ('a', 2), ('b', 1), ('a', 1)]),
     'IndexHierarchyGO-depth3': (lambda: sf.IndexHierarchyGO.from_labels([('A', 'a', 1)]), [('A', 'a', 1)], [('A', 'a', 2), ('A', 'b', 1), ('A', 'a', 1), ('B', 'a', 1), ('A', 'b', 2)]),
     'FrameGO-columns': (lambda: sf.FrameGO(np.zeros((1, 2)), columns=('a', 'b')), ['a', 'b'], ['c', 'a', 'd']),
 }
